@@ -134,7 +134,7 @@ def handle (args impl : List String) : String :=
       | some (zs, []) =>
         let cfg := boxCfg wp wv
         match walk 5 (boxInitiate cfg) (boxPredict cfg) (boxUpdate cfg) (boxDistance cfg) zs impl with
-        | some acc => res acc.k acc.o (flag (n > 1) "multi-step" ++ flag (n > 50) "long" ++ flag (zs.tail.all (· == zs.headD [])) "stationary" ++
+        | some acc => res acc.k (acc.o && acc.k) (flag (n > 1) "multi-step" ++ flag (n > 50) "long" ++ flag (zs.tail.all (· == zs.headD [])) "stationary" ++
             flag (zs.any (fun z => z.getD 2 0 != 0)) "rotated") s!"steps={acc.steps} {acc.why}"
         | none => bad "box traj: cannot parse implementation answer"
       | _ => bad "box traj boxes"
@@ -146,7 +146,7 @@ def handle (args impl : List String) : String :=
       | some (zs, []) =>
         let cfg := ptCfg wp wv
         match walk 2 (ptInitiate cfg) (ptPredict cfg) (ptUpdate cfg) (ptDistance cfg) zs impl with
-        | some acc => res acc.k acc.o (flag (n > 1) "multi-step" ++ flag (zs.tail.all (· == zs.headD [])) "stationary") s!"steps={acc.steps} {acc.why}"
+        | some acc => res acc.k (acc.o && acc.k) (flag (n > 1) "multi-step" ++ flag (zs.tail.all (· == zs.headD [])) "stationary") s!"steps={acc.steps} {acc.why}"
         | none => bad "point traj: cannot parse implementation answer"
       | _ => bad "point traj points"
     | _, _, _ => bad "point traj params"
